@@ -170,11 +170,11 @@ def describe(t, line):
 def record_validate(ctx):
     """code -> spec"""
     if ctx.tier == "quick":
-        env = {"VERIF_NS": "[1,2,3]", "VERIF_FLAGS": "core", "VERIF_ROUNDS": 1, "VERIF_MAXZ": 3,
-               "VERIF_SAMPLE_NS": "[4]", "VERIF_SAMPLES": 2, "VERIF_SAMPLE_MAXZ": 3}
+        env = {"VERIF_NS": "[1,2,3]", "VERIF_FLAGS": "core", "VERIF_ROUNDS": 1, "VERIF_MAXZ": 3, "VERIF_N3_ONE_VARIANT": 1,
+               "VERIF_SAMPLE_NS": "[4]", "VERIF_SAMPLES": 400, "VERIF_SAMPLE_MAXZ": 3}
     else:
         env = {"VERIF_NS": "[1,2,3]", "VERIF_FLAGS": "all", "VERIF_ROUNDS": 3, "VERIF_MAXZ": 3,
-               "VERIF_DFS4": 1, "VERIF_SAMPLE_NS": "[4,5,6]", "VERIF_SAMPLES": 12, "VERIF_SAMPLE_MAXZ": 4}
+               "VERIF_DFS4": 1, "VERIF_SAMPLE_NS": "[4,5,6]", "VERIF_SAMPLES": 6000, "VERIF_SAMPLE_MAXZ": 4}
     tp = ctx.path("traces.ndjson")
     env["VERIF_TRACE_OUT"] = tp
     if os.environ.get("C11_SELFTEST") == "corrupt_trace":
